@@ -566,9 +566,12 @@ def main(a):
 
     # extra engines (Verus for C17)
     extra_ev = None
-    if extra == "verus_trace" and not a.only:
-        import verus_trace
-        erc, extra_ev, lines = verus_trace.run(pid, scratch, a.tier)
+    if extra in ("verus_trace", "native_limits") and not a.only:
+        if extra == "verus_trace":
+            import verus_trace as _eng
+        else:
+            import native_extra as _eng
+        erc, extra_ev, lines = _eng.run(pid, scratch, a.tier)
         for l in lines:
             print(l)
         if erc == 1:
@@ -619,11 +622,13 @@ def main(a):
         "repo_dirty": bool(subprocess.run(["git", "-C", kanirun.REAL_REPO, "status", "--porcelain", "--untracked-files=no"], stdout=subprocess.PIPE, text=True).stdout.strip()),
         "exhaustive": False,
     }
-    if extra_ev:
+    if extra_ev and extra == "verus_trace":
         cov["verus"] = extra_ev
         cov["obligations"] += extra_ev.get("obligations", 0)
         cov["discharged"] += extra_ev.get("discharged", 0)
         cov["functions_under_contract"] = sorted(set(cov["functions_under_contract"]) | set(extra_ev.get("functions", [])))
+    elif extra_ev:
+        cov.update(extra_ev)   # bounded native stand-in: reported, never added to obligations/discharged
     if level == "model_checking":
         cov["explanation"] = meta.get("level_explanation", "")
     ev = {
